@@ -62,6 +62,7 @@ type gen struct {
 	r    *rand.Rand
 	cfg  genCfg
 	vars []J // declared vars (with "val")
+	bal  map[string]map[string]int64 // the store content of the case (for amounts exactly equal to a balance)
 }
 
 func pick[T any](r *rand.Rand, xs []T) T { return xs[r.Intn(len(xs))] }
@@ -595,7 +596,14 @@ func (g *gen) stmt() J {
 		} else {
 			sent = g.expr("monetary", asset, 1)
 		}
-		return J{"k": "save", "all": all, "sent": sent, "e": g.expr("account", "", 0)}
+		acc := g.expr("account", "", 0)
+		if !all && r.Intn(3) == 0 && acc["k"] == "acct" {
+			// exactly what the account holds (the boundary between "something is left" and "nothing is left")
+			if b, ok := g.bal[acc["v"].(string)][asset]; ok && b > 0 {
+				sent = eMon(eAsset(asset), eNum(int(b)))
+			}
+		}
+		return J{"k": "save", "all": all, "sent": sent, "e": acc}
 	case k < c.wSend+c.wSave+c.wTx:
 		t := pick(r, []string{"account", "asset", "number", "monetary", "portion", "string"})
 		return J{"k": "call", "name": "set_tx_meta", "args": jl(g.expr("string", "", 0), g.expr(t, "", 1))}
@@ -628,6 +636,7 @@ func genCase(r *rand.Rand, cfg genCfg, id int) *Case {
 	c := &Case{ID: id, Corpus: cfg.name, VarVals: map[string]J{}, RawVars: map[string]string{},
 		Bal: map[string]map[string]int64{}, Meta: map[string]map[string]string{}}
 	g.balances(c)
+	g.bal = c.Bal
 	g.declareVars(c)
 	ns := 1
 	if cfg.maxStmts > 1 {
